@@ -7,7 +7,7 @@ HERE = os.path.dirname(os.path.abspath(__file__))
 
 CHECKS = {
     "C01": {
-        "technique": "static analysis: MIR dataflow + impl-table rules (kind-set soundness, dispatch agreement, cache integrity, prefilter guard); must-pass-through of the kind index (every node looked up, every kind registered); sibling agreement of range-overlap boundaries",
+        "technique": "static analysis: MIR dataflow + impl-table rules (kind-set soundness, dispatch agreement, cache integrity, prefilter guard); must-pass-through of the kind index (every node looked up, every kind registered); sibling agreement of range-overlap boundaries; RuleCollection invariants (bucket uniqueness vs first-bucket readers, both storages read)",
         "text": "Static structural argument over the type-checked program (MIR of every Matcher impl, impl tables, call graph): decides the necessary conditions under which skipping by node kind or by literal substring cannot drop a match — who may restrict kinds, combinator polarity, cache integrity, skip sites test the matcher they run, strictness guard of the literal prefilter. It holds for all inputs because it is a statement about all paths of the code; it does not decide per-node matching itself. Also decided: every traversed node reaches the kind lookup and every potential kind is registered in the combined index; byte-range overlap filters use the half-open boundary.",
         "note": "Trusted: nightly rustc MIR/trait resolution; bit-set/tree-sitter/regex dependencies; reviewed same-node/other-node classification tables re-derived from MIR each run.",
         "design": "DESIGN.md §2 C01",
@@ -19,13 +19,13 @@ CHECKS = {
         "design": "DESIGN.md §2 C04",
     },
     "C08": {
-        "technique": "static analysis: trait-impl forwarding rule + generic-instantiation resolution + argument provenance over MIR; interprocedural value provenance (frame agreement of the splice base, file content identity, replacement-text identity per front end)",
+        "technique": "static analysis: trait-impl forwarding rule + generic-instantiation resolution + argument provenance over MIR; interprocedural value provenance (frame agreement of the splice base, file content identity, replacement-text identity per front end); splice purity of the applying writer",
         "text": "Static who-resolves-to-what argument: every instantiation chain that reaches the replaced-range computation with a rule's Fixer resolves to Fixer's own method (never the trait default), wrappers forward every overridable method, no front end uses the node-range shortcut with a Fixer, and matcher+fixer passed together come from one rule object. This is the whole mechanism by which front ends can disagree about an edit, so the structural claim is close to the behaviour. Also decided: the text a fix is spliced into is the document text its range refers to, and the scanned text is the file content unmodified.",
         "note": "Trusted: nightly rustc MIR/trait resolution; instantiation chains followed to depth 6; determinism of the shared functions is C13's concern.",
         "design": "DESIGN.md §2 C08",
     },
     "C09": {
-        "technique": "static analysis: funnel (must-call / must-not-call) rules on front-end entry points, dominance check of the LSP stale-version guard; loop/pipeline completeness (no finding dropped before its emit), range provenance of listed findings; scanned-text identity (read_file)",
+        "technique": "static analysis: funnel (must-call / must-not-call) rules on front-end entry points, dominance check of the LSP stale-version guard; loop/pipeline completeness (no finding dropped before its emit), range provenance of listed findings; scanned-text identity (read_file); RuleCollection invariants (off rules never stored, bucket uniqueness, both storages read)",
         "text": "Static funnel argument: each front end obtains findings only from CombinedScan::scan over rules selected by the rule collection, messages only via RuleConfig::get_message; in the LSP change handler the version test dominates replacement and publication. Interleavings of concurrent handlers are not decided. Also decided: between scan result and listing no loop can skip its emit and no pipeline drops elements; the listed range is the matched node's; the combined index `sg test` is compared against is complete.",
         "note": "Trusted: MIR construction incl. coroutine lowering (CFG re-linked at resume points); tower-lsp scheduling is out of scope.",
         "design": "DESIGN.md §2 C09",
@@ -55,19 +55,19 @@ CHECKS = {
         "design": "DESIGN.md §2 C13",
     },
     "C17": {
-        "technique": "static analysis: effect analysis over the call graph from producer entry points (shared-state writes), CFG arm rule for per-file failure isolation; classified who-may-call table for walker filters; synchronisation-API audit (no readable shared state, no stdout) in producer-reachable code; panic-site audit restricted to producers",
+        "technique": "static analysis: effect analysis over the call graph from producer entry points (shared-state writes), CFG arm rule for per-file failure isolation; classified who-may-call table for walker filters; synchronisation-API audit (no readable shared state, no stdout) in producer-reachable code; panic-site audit restricted to producers; consumer-state audit (printer fields: latch, counter or writer only)",
         "text": "Static effect analysis valid for every schedule: code reachable from walker-thread producers performs no unsynchronised shared write (static mut, registries, env, cwd), per-file errors lead to Continue never Quit, each produced item is sent exactly once. Also decided: content-based skipping has one authority (read_file), walkers carry only path/config filters, producers share no readable state and never write stdout.",
         "note": "Trusted: ignore's parallel walker; std::sync::mpsc; setup happens-before spawn is checked by dominance in main.",
         "design": "DESIGN.md §2 C17",
     },
     "C18": {
-        "technique": "static analysis: field-read provenance (announce/apply share one datum), who-may-write-files rule, loop rule for one payload per path; output-option read audit (announce/apply modes scan alike); payload completeness; frame agreement; half-open overlap boundary; scan-loop exhaustion independent of the mode flag",
+        "technique": "static analysis: field-read provenance (announce/apply share one datum), who-may-write-files rule, loop rule for one payload per path; output-option read audit (announce/apply modes scan alike); payload completeness; frame agreement; half-open overlap boundary; scan-loop exhaustion independent of the mode flag; splice purity; consumer-state audit",
         "text": "Static argument that the JSON announcer and the applier read the same Diff fields, that only the interactive printer writes user files, and that no producer creates several whole-file Diffs payloads for one path inside a loop over documents. Also decided: producers read output options only through needs_interactive; every fixable match reaches the accept loop; the splice base is the document text; overlap filters use the half-open boundary.",
         "note": "Trusted: std::fs; byte-level equality of the written file is value-level and not decided.",
         "design": "DESIGN.md §2 C18",
     },
     "C20": {
-        "technique": "static analysis: impl-table uniformity rules over all Language impls (recogniser funnel, expando<->pre-processing pairing, exhaustive language table); unit discipline of substring indices (character counts vs byte lengths)",
+        "technique": "static analysis: impl-table uniformity rules over all Language impls (recogniser funnel, expando<->pre-processing pairing, exhaustive language table); unit discipline of substring indices (character counts vs byte lengths); literal-coverage rule of the template scanner loop",
         "text": "Static uniformity argument over the impl tables: every language ends in the one meta-variable recogniser, overrides expando_char iff it pre-processes patterns with the shared routine and its own expando, wrappers forward, the language table is exhaustive. The An+B/substring notations are value-level and declined. Of the small notations only the unit discipline of `substring` is decided (character counts end to end); the An+B arithmetic and the sigil-prefix scanners stay value level (three seeded changes there are deliberately not caught).",
         "note": "Trusted: compiler impl tables; tree-sitter grammars accept the expando character as an identifier character.",
         "design": "DESIGN.md §2 C20",
